@@ -132,6 +132,24 @@ example :
     ∧ execImpl freeOps env 9 e5 = .error .notAllowed ∧ evalPy .py freeOps env.known [] (toPy e5) = .ok (.int 18) := by
   decide
 
+/-- boundary of the triple-quote test (`len(string) >= 6`): the EMPTY triple-quoted tokens `''''''` / `""""""` (six quote characters;
+    read as a plain token they would have four quotes as content) are refused, alone, under `+` and under `str()`, while CPython has
+    the empty string; the one-character bodies `'''a'''` and `"""'"""` likewise; the plain empty tokens `''` / `""` fold. -/
+example :
+    let t1 : Expr := .string ['\'','\'','\'','\'','\'','\'']
+    let t2 : Expr := .string ['"','"','"','"','"','"']
+    let e : Expr := .chain ['o','n','_','s','u','m'] (.string ['\'','x','\'']) [(['+'], t2)]
+    let c : Expr := .call ['s','t','r'] [t1]
+    let env : Env := ⟨[], [['s','t','r']]⟩
+    execImpl freeOps env 5 t1 = .error .notAllowed ∧ evalPy .py freeOps env.known [] (toPy t1) = .ok (.str [])
+    ∧ execImpl freeOps env 5 t2 = .error .notAllowed ∧ evalPy .py freeOps env.known [] (toPy t2) = .ok (.str [])
+    ∧ execImpl freeOps env 5 e = .error .notAllowed ∧ evalPy .py freeOps env.known [] (toPy e) = .ok (.str ['x'])
+    ∧ execImpl freeOps env 5 c = .error .notAllowed ∧ evalPy .py freeOps env.known [] (toPy c) = .ok (.str [])
+    ∧ execImpl freeOps env 5 (.string ['"','"','"','\'','"','"','"']) = .error .notAllowed
+    ∧ execImpl freeOps env 5 (.chain ['o','n','_','s','u','m'] (.string ['\'','\'']) [(['+'], .string ['"','"'])]) = .ok (.str ['\'','\''])
+    ∧ evalPy .py freeOps env.known [] (.binop ['+'] (.strLit ['\'','\'']) (.strLit ['"','"'])) = .ok (.str []) := by
+  decide
+
 /-- regression of the repaired defects (former counterexample witnesses): `str('x')` is `"x"`, `18014398509481985 / 3` is
     CPython's own true division of the two ints. -/
 example :
